@@ -193,9 +193,18 @@ impl Router {
     }
 
     fn run_inner(&mut self) -> Result<(), RouterError> {
+        #[cfg(rumqtt_verif)]
+        crate::verif::yield_point(crate::verif::Site::RunTop);
         // Block on incoming events if there are no ready connections for consumption
         if self.consume().is_none() {
             // trace!("{}:: {:20} {:20} {:?}", self.id, "", "done-await", self.readyqueue);
+            #[cfg(rumqtt_verif)]
+            {
+                crate::verif::yield_point(crate::verif::Site::BeforeRecv);
+                if crate::verif::would_block(self.router_rx.is_empty()) {
+                    return Ok(());
+                }
+            }
             let (id, data) = self.router_rx.recv()?;
             self.events(id, data);
         }
@@ -206,6 +215,8 @@ impl Router {
         // bulks which in turn increases efficiency
         for _ in 0..500 {
             // All these methods will handle state and errors
+            #[cfg(rumqtt_verif)]
+            crate::verif::yield_point(crate::verif::Site::BeforeTryRecv);
             match self.router_rx.try_recv() {
                 Ok((id, data)) => self.events(id, data),
                 Err(TryRecvError::Disconnected) => return Err(RouterError::Disconnected),
@@ -224,6 +235,8 @@ impl Router {
 
         // Poll 100 connections which are ready in ready queue
         for _ in 0..100 {
+            #[cfg(rumqtt_verif)]
+            crate::verif::yield_point(crate::verif::Site::BeforeConsume);
             self.consume();
         }
 
@@ -234,6 +247,12 @@ impl Router {
     fn events(&mut self, id: ConnectionId, data: Event) {
         let span = tracing::error_span!("[>] incoming", connection_id = id);
         let _guard = span.enter();
+
+        #[cfg(rumqtt_verif)]
+        crate::verif::yield_point(crate::verif::Site::Event {
+            id,
+            kind: crate::verif::event_kind(&data),
+        });
 
         match data {
             Event::Connect {
@@ -1050,6 +1069,9 @@ impl Router {
                 .as_ref()
                 .and_then(|name| self.shared_subscriptions.get_mut(name));
 
+            #[cfg(rumqtt_verif)]
+            crate::verif::yield_point(crate::verif::Site::BeforeForward);
+
             match forward_device_data(
                 &mut request,
                 datalog,
@@ -1181,6 +1203,84 @@ impl Router {
                 }
             }
         }
+    }
+}
+
+#[cfg(rumqtt_verif)]
+impl Router {
+    /// Handle to the router's event channel.
+    pub fn verif_link(&self) -> Sender<(ConnectionId, Event)> {
+        self.link()
+    }
+
+    /// One iteration of the router loop. Returns `Ok(true)` when the router
+    /// found nothing to do and would have blocked on its event channel.
+    pub fn verif_run_inner(&mut self) -> Result<bool, RouterError> {
+        crate::verif::take_would_block();
+        self.run_inner()?;
+        Ok(crate::verif::take_would_block())
+    }
+
+    pub fn verif_snapshot(&self) -> crate::verif::VerifSnapshot {
+        use crate::router::scheduler::Status;
+        let mut snap = crate::verif::VerifSnapshot {
+            readyqueue: self.scheduler.readyqueue.iter().copied().collect(),
+            channel_len: self.router_rx.len(),
+            max_connections: self.config.max_connections,
+            ..Default::default()
+        };
+        for (id, connection) in self.connections.iter() {
+            let mut c = crate::verif::ConnSnapshot {
+                id,
+                client_id: connection.client_id.clone(),
+                clean: connection.clean,
+                ..Default::default()
+            };
+            if let Some(tracker) = self.scheduler.trackers.get(id) {
+                c.status = match tracker.status {
+                    Status::Ready => 0,
+                    Status::Paused(PauseReason::Caughtup) => 1,
+                    Status::Paused(PauseReason::InflightFull) => 2,
+                    Status::Paused(PauseReason::Busy) => 3,
+                };
+                c.tracked = tracker
+                    .data_requests
+                    .iter()
+                    .map(|r| (r.filter.clone(), r.cursor))
+                    .collect();
+            }
+            for (_, data) in self.datalog.native.iter() {
+                for (cid, r) in data.waiters.waiters().iter() {
+                    if *cid == id {
+                        c.parked.push((r.filter.clone(), r.cursor));
+                    }
+                }
+            }
+            if let Some(o) = self.obufs.get(id) {
+                c.inflight = 100 - o.free_slots();
+                c.unacked_pubrels = o.unacked_pubrels.len();
+                c.outgoing_len = o.data_buffer.lock().len();
+            }
+            if let Some(i) = self.ibufs.get(id) {
+                c.incoming_len = i.buffer.lock().len();
+            }
+            c.subscriptions = connection.subscriptions.iter().cloned().collect();
+            c.subscriptions.sort();
+            snap.connections.push(c);
+        }
+        for (name, group) in self.shared_subscriptions.iter() {
+            snap.groups.push(crate::verif::GroupSnapshot {
+                name: name.clone(),
+                members: group.verif_clients(),
+                current: group.current_client().cloned(),
+                cursor: group.cursor,
+            });
+        }
+        snap.groups.sort_by(|a, b| a.name.cmp(&b.name));
+        snap.graveyard = self.graveyard.verif_ids();
+        snap.last_wills = self.last_wills.keys().cloned().collect();
+        snap.last_wills.sort();
+        snap
     }
 }
 
@@ -1466,6 +1566,8 @@ fn forward_device_data(
         // and skip the messages previously read while reading next time.
         // but for now, we just try to read all messages and drop the excess ones
         let mut retained_publishes = datalog.read_retained_messages(&request.filter);
+        #[cfg(rumqtt_verif)]
+        crate::verif::order_by(&mut retained_publishes, |p| p.0.topic.clone());
         retained_publishes.truncate(inflight_slots as usize);
 
         publishes.extend(retained_publishes.into_iter().map(|p| (p, None)));
@@ -1604,6 +1706,8 @@ fn forward_device_data(
 
     if len >= MAX_CHANNEL_CAPACITY - 1 {
         debug!("Outgoing channel reached its capacity");
+        #[cfg(rumqtt_verif)]
+        crate::verif::yield_point(crate::verif::Site::BeforeUnschedule);
         outgoing.push_notification(Notification::Unschedule);
         outgoing.handle.try_send(()).ok();
         return ConsumeStatus::BufferFull;
